@@ -429,9 +429,10 @@ def make_any(bitlist):
         bs.append(b)
     if not bs:
         return 0
-    if len(bs) == 1:
+    fs = frozenset(bs)
+    if len(fs) == 1:
         return bs[0]
-    return ('C', 'any', frozenset(bs))
+    return ('C', 'any', fs)
 
 
 def v_icmp(pred, a, b, w):
@@ -542,8 +543,11 @@ class PathCond(object):
         self.decisions = list(decisions)
         self.parent = {}
         self.const = {}
+        self.atomc = {}      # opaque atoms (comparisons, 'any') whose truth this world has decided
         for term, d in self.decisions:
             atom, truth = _atom_truth(term, d)
+            if atom is not None:
+                self.atomc[atom] = 1 if truth else 0
             if atom is not None and atom[1] == 'any' and not truth:
                 for m in atom[2]:
                     self._zero(m)
@@ -598,8 +602,10 @@ class PathCond(object):
     def apply(self, t):
         if t == 0 or t == 1 or is_unknown(t):
             return t
-        if not self.parent and not self.const:
+        if not self.parent and not self.const and not self.atomc:
             return t
+        if t[0] == 'C' and t in self.atomc:
+            return self.atomc[t]
         if t[0] in ('I', 'A'):
             r = self._find(t)
             if r[0] == 'C':
@@ -607,12 +613,18 @@ class PathCond(object):
             return self.const.get(r, r)
         if t[0] == 'C':
             if t[1] == 'any':
-                return make_any([self.apply(b) for b in t[2]])
-            if t[1] == 'cmp':
+                t2 = make_any([self.apply(b) for b in t[2]])
+            elif t[1] == 'cmp':
                 l = tuple(self.apply(b) for b in t[3]) if isinstance(t[3], tuple) else t[3]
                 r = tuple(self.apply(b) for b in t[4]) if isinstance(t[4], tuple) else t[4]
-                return v_icmp(t[2], norm(l) if isinstance(l, tuple) else l, norm(r) if isinstance(r, tuple) else r, t[5])
-            return t
+                t2 = v_icmp(t[2], norm(l) if isinstance(l, tuple) else l, norm(r) if isinstance(r, tuple) else r, t[5])
+            else:
+                return t
+            if isinstance(t2, tuple) and len(t2) == 1:
+                t2 = t2[0]
+            if isinstance(t2, tuple) and t2 and t2[0] == 'C' and t2 in self.atomc:
+                return self.atomc[t2]
+            return t2
         if t[0] == 'X':
             acc = 0
             for mono in t[1]:
@@ -652,6 +664,7 @@ class PathCond(object):
 
     def vars(self, acc):
         for term, d in self.decisions:
+            term_vars(term, acc)            # the variables inside decided atoms still have to satisfy them
             term_vars(self.apply(term), acc)
 
 
